@@ -52,8 +52,12 @@ IsoClauses(e, f, root) ==
                     Fail("C05.iso.attrs", n, <<"copy", r, "source", i, src.kind, src.qs, src.chans, src.dur, src.tag, src.extra>>))
           ELSE When(r.t = "comp" /\ r.rep = src.rep, Fail("C05.iso.rep", n, <<"copy", r, "source", src.rep>>)))
          \cup (IF i = root THEN {}
-               ELSE When(Clean(e.links[n]) = MapLink(src.link, f),
-                         Fail("C05.iso.link", n, <<"copy reports", Clean(e.links[n]), "source", i, src.link, "expected", MapLink(src.link, f)>>)))
+               ELSE LET want == MapLink(src.link, f)  got == Clean(e.links[n]) IN
+                    \* a group relation ("after the latest of these") must keep every member the specification's group has
+                    When(IF want.k = "multi" THEN got.k = "multi" /\ got.rt = want.rt /\ Range(want.refs) \subseteq Range(got.refs)
+                                                   /\ Range(got.refs) \subseteq {f[x] : x \in DOMAIN f}
+                         ELSE got = want,
+                         Fail("C05.iso.link", n, <<"copy reports", got, "source", i, src.link, "expected", want>>)))
          : i \in DOMAIN f}
 
 AddSubEv(e) ==
